@@ -1,7 +1,9 @@
-(* SerUtfModel2.v — the extracted entry point equals the specification-level [serialize]. *)
-From Coq Require Import NArith List.
-Require Import XV.SerDefs.
+(* SerUtfModel2.v — the extracted entry points equal the specification-level functions; the
+   transcoder-backed writer with an arbitrary representability predicate is transparent too. *)
+From Coq Require Import NArith List Bool.
+Require Import XV.SerDefs XV.SerUtfModel.
 Import ListNotations.
+Local Open Scope N_scope.
 
 Lemma serialize_fast_eq : forall k v11 ver enc es,
   serialize_fast k v11 ver enc es = serialize k v11 ver enc es.
@@ -9,4 +11,29 @@ Proof.
   intros. unfold serialize_fast, serialize.
   destruct (run _ _ _) as [w| |c]; try reflexivity.
   unfold all_units. rewrite !rev_append_rev, app_nil_r. reflexivity.
+Qed.
+
+Lemma serialize_other_fast_eq : forall rep v11 ver enc es,
+  serialize_other_fast rep v11 ver enc es = serialize_other rep v11 ver enc es.
+Proof.
+  intros. unfold serialize_other_fast, serialize_other.
+  destruct (run _ _ _) as [w| |c]; try reflexivity.
+  unfold all_units. rewrite !rev_append_rev, app_nil_r. reflexivity.
+Qed.
+
+Lemma kbuf_other_fits : kbuf_other < 2 ^ 64.
+Proof. apply N.ltb_lt. vm_compute. reflexivity. Qed.
+
+Theorem serialize_other_transparent : forall rep v11 ver enc es,
+  serialize_other rep v11 ver enc es = payload (document_items (fam_other rep) v11 ver enc es).
+Proof.
+  intros. unfold serialize_other.
+  assert (Hk : f_kbuf (fam_other rep) < 2 ^ 64) by exact kbuf_other_fits.
+  pose proof (run_transparent (f_kbuf (fam_other rep)) (document_items (fam_other rep) v11 ver enc es)
+                (wr_init (f_kbuf (fam_other rep))) Hk (wr_init_inv _)
+                (document_items_sound _ v11 ver enc es (fam_other_sound rep))) as H.
+  destruct (payload (document_items (fam_other rep) v11 ver enc es)) as [bs| |c].
+  - destruct H as [w' [E [_ U]]]. rewrite E, U, all_units_init. reflexivity.
+  - destruct H.
+  - rewrite H. reflexivity.
 Qed.
